@@ -105,7 +105,132 @@ def signed(v, W):
     return v - (1 << W) if v >> (W - 1) else v
 
 
+def literal_slot_bits(parts, tname):
+    """bit pattern that the emitted constant leaves in a slot of type tname (C conversion to the slot type included), or None when the
+    form is not recognised"""
+    import struct
+    W = 32 if tname.endswith('32') else 64
+
+    def to_slot(fmt_w, bits):
+        if fmt_w == W:
+            return bits
+        f = struct.unpack('<f' if fmt_w == 32 else '<d', bits.to_bytes(fmt_w // 8, 'little'))[0]     # C conversion to the slot type:
+        try:                                                                                           # a signalling NaN comes out quiet
+            return int.from_bytes(struct.pack('<f' if W == 32 else '<d', f), 'little')
+        except OverflowError:
+            return ((1 << (W - 1)) if f < 0 else 0) | (0x7F800000 if W == 32 else 0x7FF0000000000000)
+    kind, payload = classify_output(parts)
+    if all(isinstance(x, str) for x in parts):
+        text = ''.join(parts).strip()
+        m = re.fullmatch(r'(f32_reinterpret_i32|f64_reinterpret_i64)\(\s*(?:W2C2_LL\()?\s*(0[xX][0-9a-fA-F]+|\d+)[uUlL]*\s*\)?\s*\)', text)
+        if m:
+            fw = 32 if m.group(1).startswith('f32') else 64
+            return to_slot(fw, int(m.group(2), 0) & ((1 << fw) - 1))
+        m = re.fullmatch(r'(-?)((?:\d+\.\d*|\.\d+|\d+)(?:[eE][-+]?\d+)?)([fFlL]?)', text)
+        if m and kind not in ('inf', 'negzero'):
+            # a decimal constant: `f` suffix = float constant (rounded to binary32 first), none = double constant
+            v = float(m.group(2))
+            fw = 32 if m.group(3) in ('f', 'F') else 64
+            try:
+                bits = int.from_bytes(struct.pack('<f' if fw == 32 else '<d', v), 'little')
+            except OverflowError:
+                return None
+            if m.group(1):
+                bits |= 1 << (fw - 1)
+            return to_slot(fw, bits)
+    if kind == 'inf':
+        return ((1 << (W - 1)) if payload else 0) | (0x7F800000 if W == 32 else 0x7FF0000000000000)
+    if kind == 'negzero':
+        return 1 << (W - 1)
+    if kind == 'hex':
+        fname, (hk, arg) = payload
+        if not isinstance(arg, int):
+            return None
+        fw = 32 if fname.startswith('f32') else 64
+        return to_slot(fw, arg & ((1 << fw) - 1))
+    if kind == 'dec':
+        fw = 32 if payload[0] == 'F32' else 64
+        v = payload[1]
+        if not isinstance(v, float):
+            return None
+        try:
+            bits = int.from_bytes(struct.pack('<f' if fw == 32 else '<d', v), 'little')
+        except OverflowError:
+            return None
+        if v != v:
+            return None         # a NaN printed in decimal has no defined reading
+        return to_slot(fw, bits)
+    return None
+
+
+def concrete_literal_family(it, tname, vt):
+    """wasmCWriteLiteral evaluated on concrete bit patterns (zeros, infinities, quiet and signalling NaNs of both signs with small and
+    large payloads, subnormals, extremes): the constant it writes must leave exactly that pattern in a slot of the type; -> first
+    discrepancy (text) or None"""
+    W, E, M, digits = FLOAT_FMT[tname]
+    expmask = ((1 << E) - 1) << M
+    top = 1 << (W - 1)
+    pats = set(boundary_patterns(tname)) | {expmask | (1 << (M - 2)), expmask | top | (1 << (M - 2)) | 1, expmask | ((1 << M) - 1), expmask | (1 << (M - 1)) | 1,
+                                            expmask | ((1 << (M - 1)) - 1), expmask | top | ((1 << (M - 1)) - 1)}
+    old = getattr(it, 'union_endian', None)
+    it.union_endian = 'little'
+    try:
+        for bits in sorted(pats):
+            ifld, ffld = ('i32', 'f32') if W == 32 else ('i64', 'f64')
+
+            def setup(bits=bits):
+                sb = {'string': 0, 'length': 0, 'capacity': 0}
+                cell = {'v': sb}
+                emit._sb_init(it, [Ptr(cell, 'v')], None)
+                value = it.zero_init('union WasmValue')
+                if not isinstance(value, dict):
+                    raise AnalysisBroken('union WasmValue is not modelled as a record')
+                for k in [k for k in value if not str(k).startswith('_')]:
+                    value.pop(k)
+                value[ifld] = signed(bits, W)
+                value['_last'] = ifld
+                value['_union'] = 1
+                return ('wasmCWriteLiteral', [Ptr(cell, 'v'), vt, value], {'sb': sb})
+            try:
+                paths = it.explore(setup)
+            except pe.PEError as e:
+                raise AnalysisBroken('wasmCWriteLiteral(%s) on the bit pattern 0x%X: %s' % (tname, bits, e))
+            good = [p for p in paths if p.ret == 1]
+            if len(paths) != 1 or len(good) != 1:
+                return 'the bit pattern 0x%0*X takes %d paths, %d successful' % (W // 4, bits, len(paths), len(good))
+            parts = good[0].state['sb']['_text'].parts
+            got = literal_slot_bits(parts, tname)
+            if got is None:
+                raise AnalysisBroken('wasmCWriteLiteral(%s) writes %r for 0x%X: constant form not recognised' % (tname, parts, bits))
+            if got != bits:
+                return 'the constant 0x%0*X is written as %r, which leaves 0x%0*X in the %s slot%s' % (
+                    W // 4, bits, good[0].state['sb']['_text'].render(), W // 4, got, tname,
+                    ' (a signalling NaN became quiet: the constant went through a floating-point format conversion)'
+                    if (bits & expmask) == expmask and bits & ((1 << M) - 1) and got == bits | (1 << (M - 1)) else '')
+    finally:
+        it.union_endian = old
+    return None
+
+
 def check_float_case(chk, it, tname, vt, sb_tu):
+    """classification abstraction; a writer of another shape is decided on the concrete bit-pattern family (violation with its witness)
+    or left undecided; the family also runs as a second decision"""
+    try:
+        n = _check_float_case(chk, it, tname, vt, sb_tu)
+    except AnalysisBroken as ex:
+        bad = concrete_literal_family(it, tname, vt)
+        if bad is None:
+            raise AnalysisBroken('%s (the concrete bit-pattern family agrees, which decides those patterns only)' % ex)
+        chk.fail('R07.1', tname + ':concrete', '%s constants: %s (writer shape not recognised: %s)' % (tname, bad, str(ex)[:160]),
+                 'wasmCWriteLiteral/' + tname)
+        return 0
+    bad = concrete_literal_family(it, tname, vt)
+    chk.expect(not bad, 'R07.1', tname + ':concrete', '%s constants: %s' % (tname, bad), 'wasmCWriteLiteral/' + tname,
+               detail_ok='concrete bit-pattern family (zeros, infinities, quiet/signalling NaNs, subnormals, extremes) keeps every pattern')
+    return n
+
+
+def _check_float_case(chk, it, tname, vt, sb_tu):
     W, E, M, digits = FLOAT_FMT[tname]
     value, paths = literal_paths(it, vt)
     ifield = Sym('member', (value, 'i32' if W == 32 else 'i64'))
